@@ -80,7 +80,7 @@ class C10(Prop):
         "gumbel_cdf_monotone_0_to_1", "gumbel_textbook_laws", "gumbel_code_eq_textbook", "gumbel_code_surv_switches",
         "gumbel_code_invsurv", "wei_textbook_laws", "wei_code_eq_textbook", "wei_outside_support",
         "gev_textbook_laws", "gev_code_eq_textbook", "gev_code_logsurv", "gev_gumbel_branch_partial", "gev_outside_support",
-        "gam_laws_partial", "sxp_laws_partial", "normal_laws_partial", "hxp_cdf_add_surv_partial", "gam_sxp_outside_support")]
+        "gam_laws_partial", "sxp_laws_partial", "normal_laws_partial", "hxp_cdf_add_surv_partial", "gam_sxp_outside_support", "pdf_integrates_to_cdf_differences_partial")]
     claimed = True
     technique = ("Lean 4 proof about the C functions translated from the working tree on every run (clang-14 AST -> Lean, polymorphic "
                  "over a numeric class): real-analysis theorems at the R instance, the same definitions executed at Float bit-for-bit "
